@@ -20,11 +20,16 @@ def distance_state(rng, h, w):
         special.append(O('Exit', 0, rng.choice(['RED', 'BLUE'])))  # second exit: precondition of Exit-distance unmet
     for (y, x), o in zip(cells, special):
         grid[y][x] = o
+    single_door = rng.random() < 0.4      # exactly one door: the precondition of the Door-distance components holds
+    if single_door and len(cells) > len(special):
+        special.append(O('Door', rng.choice([0, 1, 2]), 'RED'))
+        y, x = cells[len(special) - 1]
+        grid[y][x] = special[-1]
     for (y, x) in cells[len(special):]:
         u = rng.random()
         if u < 0.25:
             grid[y][x] = O('Wall')
-        elif u < 0.33:
+        elif u < 0.33 and not single_door:
             grid[y][x] = O('Door', rng.choice([0, 1, 2]), 'RED')
         elif u < 0.38:
             grid[y][x] = O('MovingObstacle')
